@@ -455,8 +455,16 @@ def bounded(tier, seed):
                ('COsrc', 'CO anthro', 2.8e-2, 1, 1004, 7.0e2, 'kg/s')]
     cats = [(0, 'IJ-AVG-$', 'Tracer concentration'), (1000, 'ANTHSRCE', 'Anthropogenic emissions')]
     try:
-        for ci, (ntimes, nlays, nest) in enumerate([(1, [3, 3, 1, 1, 1], (1, 1, 1)), (2, [2, 3, 2, 1, 1], (1, 1, 1)), (3, [3, 1, 2, 1, 1], (5, 7, 1)),
-                                                    (2, [1, 1, 1, 1, 1], (1, 1, 1))]):
+        configs = [(1, [3, 3, 1, 1, 1], (1, 1, 1)), (2, [2, 3, 2, 1, 1], (1, 1, 1)), (3, [3, 1, 2, 1, 1], (5, 7, 1)), (2, [1, 1, 1, 1, 1], (1, 1, 1))]
+        # generated configurations: number of time blocks, layer count per tracer, nested-grid window (quick: 2, thorough: 12)
+        for _ in range(2 if tier == 'quick' else 12):
+            configs.append((int(rng.integers(1, 5)), [int(x) for x in rng.integers(1, 5, 5)], (int(rng.integers(1, 40)), int(rng.integers(1, 30)), int(rng.integers(1, 4)))))
+        # time blocks that are NOT in chronological order in the file (both readers present them in FILE order)
+        configs.append((3, [2, 1, 2, 1, 1], (1, 1, 1), (1, 0, 2)))
+        configs.append((4, [1, 2, 1, 1, 1], (3, 2, 1), (3, 1, 2, 0)))
+        for ci, cfg in enumerate(configs):
+            ntimes, nlays, nest = cfg[:3]
+            torder = cfg[3] if len(cfg) > 3 else tuple(range(ntimes))
             d = os.path.join(tmp, 'c%d' % ci)
             os.makedirs(d)
             open(os.path.join(d, 'tracerinfo.dat'), 'w').write(R.tracerinfo_text(tracers))
@@ -466,12 +474,12 @@ def bounded(tier, seed):
             for t in range(ntimes):
                 for (nm, full, mw, c, num, scale, unit), nl in zip(tracers, nlays):
                     cat = 'IJ-AVG-$' if num < 1000 else 'ANTHSRCE'
-                    blocks.append(dict(category=cat, tracer=num % 1000, unit=unit, tau0=140256. + 24 * t, tau1=140280. + 24 * t, start=nest,
+                    blocks.append(dict(category=cat, tracer=num % 1000, unit=unit, tau0=140256. + 24 * torder[t], tau1=140280. + 24 * torder[t], start=nest,
                                        data=(rng.random((nl, nj, ni)) * 5 + 0.5).astype('f')))
             raw = R.bpch_encode(blocks)
             path = os.path.join(d, 'gen.bpch')
             open(path, 'wb').write(raw)
-            sig = (ntimes, nlays, nest)
+            sig = (ntimes, nlays, nest, torder)
 
             def key(b):
                 nm = [t[0] for t in tracers if t[4] % 1000 == b['tracer'] and (t[4] >= 1000) == (b['category'] == 'ANTHSRCE')][0]
@@ -488,7 +496,7 @@ def bounded(tier, seed):
                 return None
             run.case('C18:noscale read/write reproduces the bytes', sig, t_noscale)
 
-            def t_scaled(path=path, blocks=blocks, ntimes=ntimes):
+            def t_scaled(path=path, blocks=blocks, ntimes=ntimes, torder=torder):
                 f = bpch1(path)
                 g = bpch1(path, noscale=True)
                 per = len(blocks) // ntimes
@@ -505,7 +513,7 @@ def bounded(tier, seed):
                     if v.units.strip() != tr[6]:
                         return 'unit of %s %r, tracer table says %r' % (k, v.units, tr[6])
                 tb = np.asarray(f.variables['tau0'][:])
-                if not np.array_equal(tb, [140256. + 24 * t for t in range(ntimes)]):
+                if not np.array_equal(tb, [140256. + 24 * torder[t] for t in range(ntimes)]):
                     return 'tau0 %r' % tb.tolist()
                 return None
             run.case('C18:scaled read = raw x scale, unit from tracer table', sig, t_scaled)
@@ -522,6 +530,16 @@ def bounded(tier, seed):
                         return 'block header %r expected %r' % ((a['category'], a['tracer'], a['start'], a['tau0']), (b['category'], b['tracer'], b['start'], b['tau0']))
                     if a['data'].shape != b['data'].shape or not np.allclose(a['data'], b['data'], rtol=2e-6):
                         return 'tracer data of %s/%d not preserved by write(read(file))' % (b['category'], b['tracer'])
+                # read the written file back: grid header and time bounds as in the source
+                g = bpch1(out)
+                for att in ('modelname', 'halfpolar', 'center180'):
+                    if getattr(f, att) != getattr(g, att):
+                        return 'grid header %s changed by write + read: %r -> %r' % (att, getattr(f, att), getattr(g, att))
+                if not np.array_equal(np.asarray(f.modelres), np.asarray(g.modelres)):
+                    return 'grid header modelres changed by write + read'
+                for k in ('tau0', 'tau1', 'time_bounds'):
+                    if not np.array_equal(np.asarray(f.variables[k][...]), np.asarray(g.variables[k][...])):
+                        return '%s changed by write + read' % k
                 return None
             run.case('C18:write(read(file)) with scaling returns the raw data', sig, t_rewrite_scaled)
 
@@ -536,13 +554,16 @@ def bounded(tier, seed):
                     a, c = np.asarray(f.variables[k][:]), np.asarray(g.variables[k][:])
                     if a.shape != c.shape or not np.allclose(a, c, rtol=1e-6):
                         return 'bpch1 and bpch2 present different data for %s' % k
+                for k in ('tau0', 'tau1'):
+                    if k in g.variables and not np.array_equal(np.asarray(f.variables[k][:], 'd'), np.asarray(g.variables[k][:], 'd')):
+                        return 'bpch1 and bpch2 present different %s: %r vs %r' % (k, np.asarray(f.variables[k][:]).tolist(), np.asarray(g.variables[k][:]).tolist())
                 return None
             run.case('C18:memory-mapped and block-walking readers agree', sig, t_bpch2)
     finally:
         shutil.rmtree(tmp, ignore_errors=True)
     return run.result(
         rule='reference bpch encoder -> bpch1(noscale) -> ncf2bpch -> bytes identical; scaled read = raw x scale with unit from generated tracerinfo/diaginfo; write(read) decoded by the reference decoder; bpch1 vs bpch2',
-        bound='1-3 time blocks, 2 categories x 5 tracers with differing scales, per-tracer layer counts 1-3, nested-grid offsets, 4x5 grid')
+        bound='1-4 time blocks, 2 categories x 5 tracers with differing scales, per-tracer layer counts 1-4, nested-grid offsets, 4x5 grid; 4 fixed + 2 (quick) / 12 (thorough) generated configurations')
 
 
 def bounded_replay(p):
